@@ -562,6 +562,9 @@ def rule_W_STAT(ctx, d, paths):
     ctx.ob('W-STAT', d.name + ' paths')
 
 
+IFACE_PARAMS = {'clear': ('keepstats',), 'info': (), 'archive': ('obj',), 'key': (), 'lookup': (), '__cache__': (), '__mask__': (), '__map__': ()}
+
+
 def run_closure(d, name):
     v = d.iface.get(name)
     if v is None:
@@ -569,7 +572,7 @@ def run_closure(d, name):
     node = d.closure_node(v[0])
     if node is None:
         return None, v
-    return d.run(node), v
+    return d.run(node, known=IFACE_PARAMS.get(name)), v
 
 
 def rule_W_INFO(ctx, d):
@@ -889,7 +892,7 @@ def rule_W_WRITERS(ctx, d):
         if node is None or isinstance(node, ast.Lambda):
             continue
         role = allowed.get(v)
-        outs = d.run(node)
+        outs = d.run(node, known=IFACE_PARAMS.get(role))
         ctx.analysed(cq(d, node.name))
         for o in outs:
             writes = [e for e in o.st.events if e.kind in CACHE_WRITES + ('DUMP', 'ARCHOP', 'TOGGLE') or (e.kind == 'REBIND' and role != 'archive')]
